@@ -113,8 +113,8 @@ struct MapStream : Family {
 	Plan generate(const std::string&, Rng& r, bool thorough) override {
 		Plan p;
 		swarmEnv(p, r, true, true);
-		static const char* BK[] = {"mem", "file", "fileslice", "sim", "path", "rvalue"};
-		p.setenv("backend", BK[r.below(6)]);
+		static const char* BK[] = {"mem", "file", "fileslice", "sim", "path", "rvalue", "memoff", "fileoff"};
+		p.setenv("backend", BK[r.below(8)]);
 		p.setenv("wbackend", r.chance(1, 2) ? "dyn" : r.chance(1, 3) ? "file" : r.chance(1, 2) ? "sim" : "path");
 		Line m = mkline("world", "map");
 		uint64_t lgw = r.chance(1, 2) ? r.range(5, thorough ? 10 : 8) : r.below(thorough ? 11 : 8);
@@ -183,7 +183,7 @@ struct MapStream : Family {
 		Out o = callLib(plan, [&] {
 			if (backend == "path") { disk::put("in.map", bytes); map = Map::ReadMap(std::string("in.map")); posAfter = consumed; return; } // filename overload: consumption not observable
 			if (backend == "rvalue") { map = Map::ReadMap(Stream::MemoryReader(bytes.data(), bytes.size())); posAfter = consumed; return; } // rvalue-reference overload
-			box = openBackend(backend, bytes, "in", plan.seed); map = Map::ReadMap(*box.rd); posAfter = box.rd->Position();
+			box = openBackend(backend, bytes, "in", plan.seed); map = Map::ReadMap(*box.rd); posAfter = box.rd->Position() - box.start;
 		}, &what);
 		if (o != OkOut) ctx.fail("C06.fields-equal", "a well-formed map (" + std::to_string(bytes.size()) + " bytes, backend " + backend + ") was not read: " + what);
 		if (posAfter != consumed) ctx.fail(m.trailing.empty() ? "C06.rewrite-equals-consumed" : "C06.trailing-ignored", "reader consumed " + std::to_string(posAfter) + " bytes; the map occupies " + std::to_string(consumed) + " (" + std::to_string(m.trailing.size()) + " trailing bytes follow)");
@@ -201,7 +201,7 @@ struct MapStream : Family {
 		std::vector<uint8_t> want = expectedRewrite(m, w1);
 		if (w1 != want) ctx.fail("C06.rewrite-equals-consumed", "written bytes differ from the consumed bytes (saved-game flag normalised, group header word regenerated): " + firstDiff(w1, want));
 		Map map2;
-		o = callLib(plan, [&] { ReaderBox b2 = openBackend((backend == "sim" || backend == "path" || backend == "rvalue") ? "mem" : backend, w1, "re", plan.seed ^ 9); map2 = Map::ReadMap(*b2.rd); }, &what);
+		o = callLib(plan, [&] { ReaderBox b2 = openBackend((backend == "sim" || backend == "path" || backend == "rvalue" || backend == "memoff" || backend == "fileoff") ? "mem" : backend, w1, "re", plan.seed ^ 9); map2 = Map::ReadMap(*b2.rd); }, &what);
 		if (o != OkOut) ctx.fail("C06.fields-equal", "the map the library wrote was not read back: " + what);
 		ref::RMap canon = m;
 		canon.savedGame = m.savedGame ? 1 : 0;
@@ -356,7 +356,7 @@ struct MapDamage : Family {
 		for (size_t vi = 0; vi < variants.size(); ++vi) {
 			const Line& dmg = variants[vi];
 			// backend rotates so that every backend meets every damage class over the sweep; a pinned variant carries its backend
-			const std::string backendName = dmg.has("backend") ? dmg.get("backend") : (vi % 7 == 3) ? "file" : (vi % 7 == 5) ? "sim" : (vi % 7 == 1) ? "path" : (vi % 7 == 6) ? "rvalue" : "mem";
+			const std::string backendName = dmg.has("backend") ? dmg.get("backend") : (vi % 7 == 3) ? "file" : (vi % 7 == 5) ? "sim" : (vi % 7 == 1) ? "path" : (vi % 7 == 6) ? "rvalue" : (vi % 7 == 2) ? "memoff" : (vi % 7 == 4) ? "fileoff" : "mem";
 			{ Line pinned = dmg; pinned.set("backend", backendName); ctx.setVariant(pinned.str()); }
 			std::vector<uint8_t> bytes = applyDamage(valid, fields, dmg);
 			bool changed = bytes != valid;
